@@ -1056,7 +1056,8 @@ func (m *Machine) exec(fr *frame, ins ssa.Instruction) {
 		mt := x.Type().Underlying().(*types.Map)
 		fr.env[x] = &MapObj{O: m.newObj(m.siteOf(x, fr)), idx: map[string]*mapEnt{}, kt: mt.Key(), vt: mt.Elem()}
 	case *ssa.MakeChan:
-		fr.env[x] = &ChanObj{}
+		sz := m.concInt(fr.get(m, x.Size).(*Term), "channel capacity")
+		fr.env[x] = &ChanObj{cap: sz, O: m.newObj(m.siteOf(x, fr))}
 	case *ssa.MakeClosure:
 		env := make([]Val, len(x.Bindings))
 		for i, b := range x.Bindings {
@@ -1086,9 +1087,13 @@ func (m *Machine) exec(fr *frame, ins ssa.Instruction) {
 	case *ssa.Next:
 		fr.env[x] = m.rangeNext(fr.get(m, x.Iter), x)
 	case *ssa.Send:
-		m.unmodelled("channel send in %s", fr.fn)
+		ch := fr.get(m, x.Chan).(*ChanObj)
+		if ch == nil || ch.closed || len(ch.q) >= ch.cap {
+			m.unmodelled("channel send that would block or panic in %s (single logical thread)", fr.fn)
+		}
+		m.chanPush(ch, fr.get(m, x.X))
 	case *ssa.Select:
-		m.unmodelled("select in %s", fr.fn)
+		fr.env[x] = m.selectStmt(fr, x)
 	case *ssa.SliceToArrayPointer:
 		m.unmodelled("slice to array pointer in %s", fr.fn)
 	default:
@@ -1352,6 +1357,82 @@ func (m *Machine) mapFind(mo *MapObj, key Val) *mapEnt {
 		}
 	}
 	return nil
+}
+
+// chanPush / chanPop: buffered-channel operations of the single logical thread.
+// A channel made by a package initialiser is restored after the path.
+func (m *Machine) chanTouch(ch *ChanObj, what string) {
+	if ch.O != nil {
+		if ch.O.epoch == 0 && !m.inInit {
+			m.chanUndos = append(m.chanUndos, chanUndo{ch, append([]Val(nil), ch.q...), ch.closed})
+		}
+		m.noteWrite(ch.O, what)
+	}
+}
+
+func (m *Machine) chanPush(ch *ChanObj, v Val) {
+	m.chanTouch(ch, "channel send")
+	ch.q = append(ch.q, v)
+}
+
+func (m *Machine) chanPop(ch *ChanObj) Val {
+	m.chanTouch(ch, "channel receive")
+	v := ch.q[0]
+	ch.q = ch.q[1:]
+	return v
+}
+
+type chanUndo struct {
+	ch     *ChanObj
+	q      []Val
+	closed bool
+}
+
+// selectStmt: the ready cases of a select in the single logical thread. With
+// several ready cases the choice is a fork (the runtime picks at random).
+func (m *Machine) selectStmt(fr *frame, x *ssa.Select) Val {
+	var ready []int
+	for i, st := range x.States {
+		ch, _ := fr.get(m, st.Chan).(*ChanObj)
+		if ch == nil {
+			continue
+		}
+		if st.Dir == types.SendOnly {
+			if !ch.closed && len(ch.q) < ch.cap {
+				ready = append(ready, i)
+			}
+		} else if len(ch.q) > 0 || ch.closed {
+			ready = append(ready, i)
+		}
+	}
+	idx := -1
+	if len(ready) > 0 {
+		idx = ready[m.chooseN(len(ready), "select: ready case")]
+	} else if x.Blocking {
+		m.unmodelled("select would block in %s (single logical thread)", fr.fn)
+	}
+	res := TupleV{BV(64, uint64(int64(idx))), tFalse}
+	for i, st := range x.States {
+		if st.Dir == types.SendOnly {
+			if i == idx {
+				m.chanPush(fr.get(m, st.Chan).(*ChanObj), fr.get(m, st.Send))
+			}
+			continue
+		}
+		et := st.Chan.Type().Underlying().(*types.Chan).Elem()
+		if i == idx {
+			ch := fr.get(m, st.Chan).(*ChanObj)
+			if len(ch.q) > 0 {
+				res = append(res, m.chanPop(ch))
+				res[1] = tTrue
+			} else {
+				res = append(res, zero(et, nil))
+			}
+		} else {
+			res = append(res, zero(et, nil))
+		}
+	}
+	return res
 }
 
 func (m *Machine) saveMap(mo *MapObj) {
